@@ -158,13 +158,13 @@ class ExprTr:
                 if key in self.edge:
                     return self.edge[key]
                 raise Untranslatable("edge slice %s[%s] not declared" % key, e)
-        if self.mask_ok and isinstance(sl, ast.Name) and sl.id.endswith("_mask"):
+        if self.mask_ok and isinstance(sl, ast.Name) and "mask" in sl.id:
             return self.tr(e.value)
         raise Untranslatable("subscript", e)
 
     def call(self, e):
         f = e.func
-        if e.keywords and not (isinstance(f, ast.Attribute) and f.attr in ("softplus", "clamp")):
+        if e.keywords and not (isinstance(f, ast.Attribute) and f.attr in ("softplus", "clamp", "sum_except_batch")):
             raise Untranslatable("keyword arguments", e)
         if isinstance(f, ast.Attribute):
             # module.function(args)
@@ -206,12 +206,20 @@ class ExprTr:
             # torchutils.cbrt(x)
             if isinstance(f.value, ast.Name) and f.value.id == "torchutils" and f.attr == "cbrt" and len(e.args) == 1:
                 return "(o_cbrt O %s)" % self.tr(e.args[0])
+            # torchutils.sum_except_batch(e[, num_batch_dims=1]): per-element reading (the sum over the
+            # non-batch dimensions is modelled by the hand-written aggregation)
+            if isinstance(f.value, ast.Name) and f.value.id == "torchutils" and f.attr == "sum_except_batch" \
+                    and len(e.args) == 1 and all(kw.arg == "num_batch_dims" and isinstance(kw.value, ast.Constant)
+                                                 and kw.value.value == 1 for kw in e.keywords):
+                return self.tr(e.args[0])
             # method calls on expressions: x.pow(k), x.abs(), x.log(), x.exp(), x.float()
             recv = self.tr(f.value)
             if f.attr == "pow" and len(e.args) == 1:
                 return self.power(recv, e.args[0], e)
             if f.attr in ("abs", "log", "exp", "sqrt", "tanh", "sigmoid") and not e.args:
                 return "(%s %s)" % (UNARY_CALLS[f.attr], recv)
+            if f.attr == "reshape" and len(e.args) == 1 and ast.unparse(e.args[0]) == "-1":
+                return recv   # shape only
             raise Untranslatable("method .%s()" % f.attr, e)
         raise Untranslatable("call", e)
 
@@ -390,7 +398,7 @@ def block_defs(prefix, stmts, free, outputs, consts=None, attrs=None, edge=None,
                 env[t.id] = v
                 continue
             if isinstance(t, ast.Subscript) and isinstance(t.value, ast.Name) and isinstance(t.slice, ast.Name) \
-                    and t.slice.id.endswith("_mask"):
+                    and "mask" in t.slice.id:
                 # outputs[mask] = expr : per-element reading, recorded as <name>_at_<mask>
                 key = "%s_at_%s" % (t.value.id, t.slice.id)
                 if key in skip:
